@@ -92,7 +92,8 @@ def derive(tab, n, path, prf=None):
 
 def payload(n, version, private):
     key = (b"\x00" + n.k) if private else n.K
-    return version.to_bytes(4, "big") + bytes([n.depth & 255]) + n.pfp + n.idx.to_bytes(4, "big") + n.c + key
+    pfp = bytes(4) if (n.depth == 0 and n.idx == 0) else n.pfp        # master rule
+    return version.to_bytes(4, "big") + bytes([n.depth & 255]) + pfp + n.idx.to_bytes(4, "big") + n.c + key
 
 
 def ser(tab, n, version, private):
